@@ -127,7 +127,13 @@ fn run_case(sh: &mut Shard, case: u64, rng: &mut Rng) {
     // half of the cycles: the segment answers the bytes no device supplied (the outputs) with other
     // bytes than were sent - the local outputs must survive that
     let scramble: u8 = if rng.bool() { 1 + rng.below(255) as u8 } else { 0 };
-    let scenario = json!({"case": case, "variant": vname, "scramble_unread": scramble, "devices": n, "image": image, "inputs": in_total, "outputs": out_total, "frame_len": frame_len, "dc": dc_any});
+    // a fifth of the cycles: one SubDevice (not the DC reference, whose answer is the reported time)
+    // services nothing during the cycle - its status read comes back unanswered, and it must still
+    // have its entry in the state list
+    let first_dc = descs.iter().position(|d| d.dc_supported);
+    let deaf_candidates: Vec<usize> = (0..n).filter(|i| Some(*i) != first_dc).collect();
+    let deaf: Option<usize> = if !deaf_candidates.is_empty() && rng.chance(1, 5) { Some(*rng.pick(&deaf_candidates)) } else { None };
+    let scenario = json!({"case": case, "variant": vname, "scramble_unread": scramble, "silent_device": deaf, "devices": n, "image": image, "inputs": in_total, "outputs": out_total, "frame_len": frame_len, "dc": dc_any});
     if std::env::var("VH_PROGRESS").is_ok() {
         eprintln!("{scenario}");
     }
@@ -181,11 +187,13 @@ fn run_case(sh: &mut Shard, case: u64, rng: &mut Rng) {
                     sim.net.keep_log = true;
                     sim.net.log.clear();
                     sim.net.faults.scramble_unread_lrw = scramble;
+                    sim.net.faults.deaf = deaf;
                     let r = match sim.run(g.$call(md)) {
                         Ok(Ok(r)) => r,
                         other => return Err(format!("cycle: {:?}", other.map(|r| r.map(|_| ())))),
                     };
                     sim.net.faults.scramble_unread_lrw = 0;
+                    sim.net.faults.deaf = None;
                     sim.net.keep_log = false;
                     let mut after = vec![];
                     for sd in g.iter(md) {
@@ -276,6 +284,8 @@ fn run_case(sh: &mut Shard, case: u64, rng: &mut Rng) {
     let mut lrw: Vec<(u32, Vec<u8>, Vec<u8>, u16)> = vec![]; // addr, tx data, rx data, wkc
     let mut frmw = 0;
     let mut checks: Vec<u16> = vec![];
+    // what came back for each status read (zeros when nobody serviced it)
+    let mut status_answers: Vec<u8> = vec![];
     for (fi, l) in log.iter().enumerate() {
         let tx_len: usize = 16 + l.tx.dgrams.iter().map(|d| d.wire_len()).sum::<usize>();
         if tx_len > frame_len {
@@ -294,7 +304,10 @@ fn run_case(sh: &mut Shard, case: u64, rng: &mut Rng) {
                         problems.push(format!("dc-datagram-wrong:FRMW to {:#06x}:{:#06x} len {}", d.adp(), d.ado(), d.data.len()));
                     }
                 }
-                wire::CMD_FPRD if d.ado() == 0x0130 => checks.push(d.adp()),
+                wire::CMD_FPRD if d.ado() == 0x0130 => {
+                    checks.push(d.adp());
+                    status_answers.push(rx.dgrams[di].data.first().copied().unwrap_or(0) & 0x0f);
+                }
                 other => problems.push(format!("unexpected-datagram:command {other} in a process data cycle")),
             }
         }
@@ -361,7 +374,15 @@ fn run_case(sh: &mut Shard, case: u64, rng: &mut Rng) {
     if checks != want_addrs {
         problems.push(format!("state-checks:status datagrams address {checks:x?}, group order is {want_addrs:x?}"));
     }
-    let truth_states: Vec<u8> = truth.iter().map(|t| (*t & 0x0f) as u8).collect();
+    // what each device reported = what its status read brought back; for devices that serviced it
+    // that is the register value the device held (cross-checked), for a deaf one nothing (0)
+    let truth_states: Vec<u8> = truth.iter().enumerate().map(|(i, t)| if deaf == Some(i) { 0 } else { (*t & 0x0f) as u8 }).collect();
+    if status_answers.len() == truth_states.len() && status_answers != truth_states {
+        sh.inconclusive = Some(format!("harness: status answers on the wire {status_answers:?} differ from the device registers {truth_states:?} (case {case})"));
+    }
+    if deaf.is_some() {
+        sh.count("cycles_with_a_silent_subdevice");
+    }
     if states != truth_states {
         problems.push(format!("state-list:{states:?} vs devices {truth_states:?}"));
     }
